@@ -738,6 +738,159 @@ func (r *runner) regroupOp() {
 	r.out.Count("op:A")
 }
 
+// ---- constant values and annotation lists read by the real parser vs the reader model
+
+func cvCanon(c *parser.ConstValue) string {
+	v := c.TypedValue
+	switch {
+	case v.Double != nil:
+		return fmt.Sprint("D ", math.Float64bits(*v.Double))
+	case v.Int != nil:
+		return fmt.Sprint("I ", *v.Int)
+	case v.Literal != nil:
+		return "L " + vl.Hex(*v.Literal)
+	case v.Identifier != nil:
+		return "X " + vl.Hex(*v.Identifier)
+	case v.List != nil:
+		s := fmt.Sprint("S ", len(v.List))
+		for _, x := range v.List {
+			s += " " + cvCanon(x)
+		}
+		return s
+	case v.Map != nil:
+		s := fmt.Sprint("M ", len(v.Map))
+		for _, kv := range v.Map {
+			s += " " + cvCanon(kv.Key) + " " + cvCanon(kv.Value)
+		}
+		return s
+	}
+	return "Z"
+}
+
+func (r *runner) rCVv(c CV) string {
+	rg := r.g.r
+	sp := func() string { return rg.Pick([]string{"", "", " ", "  ", "\n", "\t", " \n\t"}) }
+	sep := func() string { return rg.Pick([]string{",", ", ", " , ", ";", " ", "\n", ",\n\t"}) }
+	switch c.Kind {
+	case "list":
+		s := "[" + sp()
+		for i, x := range c.List {
+			s += r.rCVv(x)
+			if i != len(c.List)-1 || rg.Chance(20) {
+				s += sep()
+			}
+		}
+		return s + sp() + "]"
+	case "map":
+		s := "{" + sp()
+		for i, kv := range c.Map {
+			s += r.rCVv(kv[0]) + sp() + ":" + sp() + r.rCVv(kv[1])
+			if i != len(c.Map)-1 || rg.Chance(20) {
+				s += sep()
+			}
+		}
+		return s + sp() + "}"
+	}
+	return rCV(c)
+}
+
+func numPairs(c CV, out *[]string) {
+	switch c.Kind {
+	case "num":
+		if strings.Contains(c.Num, ".") {
+			f, _ := strconv.ParseFloat(c.Num, 64)
+			*out = append(*out, vl.Hex(c.Num), strconv.FormatUint(math.Float64bits(f), 10))
+		}
+	case "list":
+		for _, x := range c.List {
+			numPairs(x, out)
+		}
+	case "map":
+		for _, kv := range c.Map {
+			numPairs(kv[0], out)
+			numPairs(kv[1], out)
+		}
+	}
+}
+
+func astPairs(c *parser.ConstValue, out *[]string) {
+	v := c.TypedValue
+	if v.Double != nil {
+		*out = append(*out, vl.Hex(strconv.FormatFloat(*v.Double, 'f', -1, 64)), strconv.FormatUint(math.Float64bits(*v.Double), 10))
+	}
+	for _, x := range v.List {
+		astPairs(x, out)
+	}
+	for _, kv := range v.Map {
+		astPairs(kv.Key, out)
+		astPairs(kv.Value, out)
+	}
+}
+
+func (r *runner) emitV(tag, text string, pairs []string) *parser.Thrift {
+	impl := "other"
+	a, err := safeParse("a.thrift", "const i32 c = "+text+"\n")
+	if err == nil && len(a.Constants) == 1 && len(a.Constants[0].Annotations) == 0 && len(a.Typedefs)+len(a.Structs)+len(a.Enums)+len(a.Services) == 0 {
+		impl = "ok " + cvCanon(a.Constants[0].Value)
+	} else {
+		a = nil
+	}
+	op := fmt.Sprintf("V %s %d", vl.Hex(text), len(pairs)/2)
+	if len(pairs) > 0 {
+		op += " " + strings.Join(pairs, " ")
+	}
+	r.out.Case(op, impl, impl != "other")
+	r.out.Count("op:V/" + tag + "/" + strings.SplitN(impl, " ", 2)[0])
+	return a
+}
+
+func (r *runner) readCVOp() {
+	c := r.g.cv(0)
+	text := r.rCVv(c)
+	var pairs []string
+	numPairs(c, &pairs)
+	a := r.emitV("source", text, pairs)
+	if a == nil {
+		return
+	}
+	// the dumper's own rendering of the same value
+	out, p := safeDump(a)
+	if p || !strings.HasPrefix(out, "const i32 c = ") {
+		return
+	}
+	t2 := strings.TrimSuffix(strings.TrimPrefix(out, "const i32 c = "), "\n\n")
+	var p2 []string
+	astPairs(a.Constants[0].Value, &p2)
+	r.emitV("dumped", t2, p2)
+}
+
+func (r *runner) readAnnsOp() {
+	rg := r.g.r
+	sp := func() string { return rg.Pick([]string{"", "", " ", "\n", "\t "}) }
+	s := sp() + "(" + sp()
+	for i, n := 0, rg.Intn(5); i < n; i++ {
+		s += rg.Pick(annKeys) + sp() + "=" + sp() + r.g.lit().String() + sp() + rg.Pick([]string{",", ";", "", " ", ", "}) + sp()
+	}
+	if rg.Chance(93) {
+		s += ")"
+	}
+	s += rg.Pick([]string{"", "", " ", " ,", ";"})
+	impl := "other"
+	if a, err := safeParse("a.thrift", "struct S {}"+s+"\n"); err == nil && len(a.Structs) == 1 && len(a.Constants)+len(a.Typedefs) == 0 {
+		var p []string
+		for _, x := range a.Structs[0].Annotations {
+			var vs []string
+			for _, v := range x.Values {
+				vs = append(vs, vl.Hex(v))
+			}
+			p = append(p, vl.Hex(x.Key)+"="+strings.Join(vs, ","))
+		}
+		impl = strings.TrimSpace("ok " + strings.Join(p, " "))
+	}
+	r.out.Case("P "+vl.Hex(s), impl, impl != "other")
+	r.out.Count("op:P/" + strings.SplitN(impl, " ", 2)[0])
+}
+
 func (r *runner) unescapeOp() {
 	x := r.randBytes() + r.g.r.Pick([]string{"", "&", "&amp;", "&lt;x", "&#34;", "& amp;", "&&"})
 	s := strings.ReplaceAll(x, "&", "&amp;")
@@ -782,6 +935,10 @@ func run(repo, dir string, seed uint64, tier, trimmer string) error {
 	}
 	for i := 0; i < nA; i++ {
 		r.regroupOp()
+	}
+	for i := 0; i < nR/2; i++ {
+		r.readCVOp()
+		r.readAnnsOp()
 	}
 	for i := 0; i < nU; i++ {
 		r.unescapeOp()
@@ -912,7 +1069,12 @@ func (r *runner) trimmerProject(trimmer, dir string, idx int) error {
 			return
 		}
 		seen[a] = true
-		rel, _ := filepath.Rel(src, a.Filename)
+		abs, _ := filepath.Abs(a.Filename)
+		rel, rerr := filepath.Rel(src, abs)
+		if rerr != nil {
+			fail(a.Filename, "missing-file", rerr.Error(), "")
+			return
+		}
 		wb, err := os.ReadFile(filepath.Join(outDir, rel))
 		if err != nil {
 			fail(rel, "missing-file", err.Error(), "")
